@@ -17,6 +17,8 @@
 #include "Store.h"
 #include "StrList.h"
 
+#include <limits>
+
 /*
  *    Currently only byte ranges are supported
  *
@@ -93,6 +95,12 @@ HttpHdrRangeSpec::parseInit(const char *field, int flen)
                 // RFC 2616 s14.35.1 MUST: last-byte-pos >= first-byte-pos
                 if (last_pos < offset) {
                     debugs(64, 2, "invalid (last-byte-pos < first-byte-pos) range-spec near: " << field);
+                    return false;
+                }
+
+                // last_pos + 1 below must not overflow
+                if (last_pos == std::numeric_limits<int64_t>::max()) {
+                    debugs(64, 2, "unsupported last-byte-pos in range-spec near: " << field);
                     return false;
                 }
 
